@@ -1,1 +1,2 @@
 import GstGen.CowTable
+import GstGen.CalcTable
